@@ -28,6 +28,21 @@ func Quiet() {
 	l.SetLevel(logrus.PanicLevel)
 }
 
+// SetLogLevel sets the process-wide log level ("" = the harness default: nothing is logged,
+// log statements guarded by a level do not execute; "debug"/"trace" = as with -L debug).
+// The output stays discarded, but everything that is logged is formatted.
+func SetLogLevel(level string) {
+	l := logger.GetLogger("verif").Logger
+	lv := logrus.PanicLevel
+	if level != "" {
+		var err error
+		if lv, err = logrus.ParseLevel(level); err != nil {
+			panic(err)
+		}
+	}
+	l.SetLevel(lv)
+}
+
 func init() { Quiet() }
 
 // Out is everything one datagram caused.
